@@ -9,7 +9,9 @@ itself contain common lines), trailing context `S`; it sits at its stated 0-base
 between the changed middles of two consecutive hunks at least one line is unchanged (otherwise diff
 would have produced one hunk); a hunk with more leading than trailing context reaches the end of `A`
 and of `B` (that is the only way diff emits such a hunk: its trailing context, common to both files, was
-cut short by the end of both).  No particular diff algorithm or context width is
+cut short by the end of both; requiring the end of `A` only would allow `A = a b x s`, `B = a b s y`,
+hunks `a b -x s` (2/1 context) and `s +y` (1/0), which applies forwards but whose first hunk, being
+end-anchored, finds no place backwards on `B`).  No particular diff algorithm or context width is
 assumed: any `hs` with this property is covered (context width 0 gives `P = S = []`).
 -/
 namespace RQ
